@@ -3,6 +3,7 @@ From Coq Require Import List Arith ZArith Bool PrimFloat.
 From MM Require Import lib.ListSet lib.Combi lib.Values model.Heap model.Elig model.SearchParams model.SearchDefs model.Search
   gen.Gen_Search proofs.EligProofs proofs.GroupSpecs proofs.SearchBridge proofs.CountProofs proofs.ExhaustiveProofs.
 Import ListNotations.
+From MM Require Import gen.Gen_HeapDict gen.Gen_Exhaustive proofs.ExhaustiveBridge.
 
 (* the fast count is exactly the number of pairs produced by the generators ... *)
 Theorem C11_count_is_enumeration_size :
@@ -67,3 +68,15 @@ Example C11_example :
                 p_n_geos_max := None; p_n_designs := 1; p_iroas := 1%float |} in
   (count FloatOps (assignments_of es) par, length (enum_pairs FloatOps (assignments_of es) par)) = (14%Z, 14%nat).
 Proof. vm_compute. reflexivity. Qed.
+
+(* stated on the Gallina regenerated on this run from exhaustive_search itself (gen/Gen_Exhaustive.v) *)
+Theorem C11_count_bounds_translated_exhaustive_search :
+  forall (V K : Type) (O : vops V) (ltk : K -> K -> bool) (es : list elig) (par : spar V)
+         (shareS optB : set -> V) (bud : set -> set -> V) (score0 : set -> set -> K) (replace_inv : K -> V -> K),
+    (Z.of_nat (length (dd_get (gen_exhaustive_search O ltk (assignments_of es) par shareS optB bud score0 replace_inv) 0%Z)) <= count O (assignments_of es) par)%Z.
+Proof.
+  intros. rewrite <- (map_length (@des_groups K)), gen_exhaustive_groups.
+  etransitivity; [|apply C11_count_bounds_exhaustive with (shareS := shareS) (optB := optB) (bud := bud)].
+  apply Nat2Z.inj_le. apply exhaustive_length_le_pushed.
+Qed.
+Print Assumptions C11_count_bounds_translated_exhaustive_search.
